@@ -197,6 +197,8 @@ class Transformer:
         # kZoneGMT_0, so cannot be used.
         zones_map, links_map = self.remove_zones_and_links_with_similar_names(
             zones_map, links_map)
+        # The step above can remove Zones, so remove the Links to them as well.
+        links_map = self.remove_links_to_missing_zones(links_map, zones_map)
 
         # Part 7: Replace the original maps with the transformed ones.
         self.rules_map = rules_map
